@@ -281,17 +281,16 @@ def gen_cfg(rng, klass, layout, gowrap, quick):
     ed = rng.choice(ENV_BOOL_POOL)
     if ed is not None:
         env[b"MAGEFILE_DEBUG"] = ed
-    # go command
-    r = rng.random()
-    if r < 0.25:
-        c["gocmd"] = gowrap
-    elif r < 0.5:
-        env[b"MAGEFILE_GOCMD"] = gowrap.encode()
-    elif r < 0.55:
-        c["gocmd"] = gowrap
-        env[b"MAGEFILE_GOCMD"] = b"/nonexistent/go-from-the-variable"
-    elif r < 0.6:
-        env[b"MAGEFILE_GOCMD"] = b""
+    # go command: flag {absent, the default "go", a custom command} x variable {unset, "go", custom, "", garbage}
+    # (a garbage variable only together with a flag: without one mage would have to build with it)
+    gflag = rng.choice([None, None, None, "go", "go", gowrap, gowrap])
+    gvars = [None, None, b"go", gowrap.encode(), gowrap.encode(), b""]
+    if gflag is not None:
+        gvars += [b"/nonexistent/go-from-the-variable", gowrap.encode()]
+    gvar = rng.choice(gvars)
+    c["gocmd"] = gflag
+    if gvar is not None:
+        env[b"MAGEFILE_GOCMD"] = gvar
     # timeout
     r = rng.random()
     if r < 0.3:
@@ -809,7 +808,7 @@ def run(ctx):
             which[ci] = projs[pi]
     # oracle + Coq cases
     items, item_cfg = [], []
-    dist = {"routes": {}, "modes": {}, "clauses": {}, "v_flag": {}, "debug_flag": {}, "MAGEFILE_VERBOSE": {}, "MAGEFILE_DEBUG": {}, "gocmd": {},
+    dist = {"routes": {}, "modes": {}, "clauses": {}, "v_flag": {}, "debug_flag": {}, "MAGEFILE_VERBOSE": {}, "MAGEFILE_DEBUG": {}, "gocmd": {}, "v_x_var": {}, "debug_x_var": {},
             "caller_GOOS_GOARCH": {}, "timeout": {}, "d": {}, "w": {}, "layout": {}, "stdin": {}, "extras": {}, "echo": {}}
 
     def bump(d, k):
@@ -835,7 +834,11 @@ def run(ctx):
         bump("debug_flag", c["debug"])
         bump("MAGEFILE_VERBOSE", own.get(b"MAGEFILE_VERBOSE"))
         bump("MAGEFILE_DEBUG", own.get(b"MAGEFILE_DEBUG"))
-        bump("gocmd", ("flag" if c["gocmd"] else "") + ("+var" if b"MAGEFILE_GOCMD" in own else ""))
+        def gclass(v):
+            return "absent" if v is None else ("default" if v in ("go", b"go") else ("empty" if v in ("", b"") else ("garbage" if b"nonexistent" in (v if isinstance(v, bytes) else v.encode()) else "custom")))
+        bump("gocmd", "flag %s x var %s" % (gclass(c["gocmd"]), gclass(own.get(b"MAGEFILE_GOCMD"))))
+        bump("v_x_var", "flag %s x var %s" % (flag_bool(c["v"]), own.get(b"MAGEFILE_VERBOSE")))
+        bump("debug_x_var", "flag %s x var %s" % (flag_bool(c["debug"]), own.get(b"MAGEFILE_DEBUG")))
         bump("timeout", ("flag " + c["t"] if c["t"] else "") + (" var %r" % own[b"MAGEFILE_TIMEOUT"] if b"MAGEFILE_TIMEOUT" in own else ""))
         bump("stdin", c["stdin"])
         for k in own:
